@@ -383,6 +383,10 @@ func roundTrip(enc goahttp.Encoder, w *httptest.ResponseRecorder, hdr, vk string
 		in = &thing{A: "héllo <&> \"q\"", B: -42}
 	case "string":
 		in = "plain text ✓ <tag>"
+		if len(hdr)%4 == 1 {
+			// now and then a body beyond any buffer a doer might keep (200 KiB)
+			in = strings.Repeat("0123456789abcdef", 12800) + " ✓"
+		}
 	default:
 		in = []byte{0, 1, 2, 250, 'x'}
 	}
